@@ -10,6 +10,7 @@ import (
 	"sort"
 	"strconv"
 	"strings"
+	"sync"
 
 	ecommon "github.com/ethereum/go-ethereum/common"
 	"github.com/ethereum/go-ethereum/core/types"
@@ -236,7 +237,7 @@ func (m *model) listsAt(p *mnode, n uint64) []string {
 
 func (m *model) events(s state) []string {
 	var evs []string
-	for _, p := range s.nodes {
+	for pi, p := range s.nodes {
 		n := p.height + 1
 		set := m.inEffect(p)
 		diffs := []int64{2, 1}
@@ -261,7 +262,11 @@ func (m *model) events(s state) []string {
 				}
 			}
 		}
-		// malformations and misplaced lists on top of an otherwise acceptable header
+		// malformations and misplaced lists on top of an otherwise acceptable header: on every stored header while the
+		// state is small, later only on the most recently stored one (these checks do not depend on the rest of the tree)
+		if len(s.nodes) > 3 && pi != len(s.nodes)-1 {
+			continue
+		}
 		for _, hs := range m.honest(p, p.borProp(m)) {
 			defList := lists[0]
 			for _, k := range m.kinds() {
@@ -501,8 +506,18 @@ func errClass(err error) string {
 	return s
 }
 
-type runStats struct {
-	st mc.Stats
+// loaded remembers which dump a pooled Sim currently holds (by identity of the dump's backing array), so that the
+// many rejected submissions explored from one state do not reload it.
+var loaded sync.Map
+
+func loadInto(sim *hsenv.Sim, d polyenv.Dump) {
+	if cur, ok := loaded.Load(sim); ok && len(d) > 0 && cur.(*polyenv.KV) == &d[0] {
+		return
+	}
+	sim.Load(d)
+	if len(d) > 0 {
+		loaded.Store(sim, &d[0])
+	}
 }
 
 func explore(r *ev.Run, env *hsenv.Env, m *model, sims chan *hsenv.Sim, base polyenv.Dump, chain uint64, gnode *mnode, graw []byte, depth, workers int) mc.Stats {
@@ -562,8 +577,11 @@ func explore(r *ev.Run, env *hsenv.Env, m *model, sims chan *hsenv.Sim, base pol
 			if !dup && s.byHash(hx) != nil {
 				return s, false // the same header is already stored (event aliases a stored node)
 			}
-			sim.Load(s.dump)
+			loadInto(sim, s.dump)
 			res := sim.Exec(hsenv.HeadersTx(chain, rt.Raw(hd)), 3, 300)
+			if len(res.WriteSet) > 0 {
+				loaded.Delete(sim)
+			}
 			r.Eval()
 			nx := state{nodes: s.nodes, head: s.head}
 			if res.Panic != nil {
@@ -571,8 +589,12 @@ func explore(r *ev.Run, env *hsenv.Env, m *model, sims chan *hsenv.Sim, base pol
 				r.Note("panics_observed", fmt.Sprint(res.Panic))
 				res.OK = false
 			}
-			nx.dump = sim.Dump()
-			nx.hskey = hsKey(nx.dump)
+			if len(res.WriteSet) == 0 { // failed / no-op transaction: the store is untouched by construction
+				nx.dump, nx.hskey = s.dump, s.hskey
+			} else {
+				nx.dump = sim.Dump()
+				nx.hskey = hsKey(nx.dump)
+			}
 			// what got stored?
 			pre := hsenv.HSPrefix(hscommon.HEADER_INDEX, chain)
 			keys := sim.Keys(pre)
@@ -600,10 +622,14 @@ func explore(r *ev.Run, env *hsenv.Env, m *model, sims chan *hsenv.Sim, base pol
 				default:
 					bad = m.judge(p, sp, p.borProp(m))
 					if len(bad) == 0 {
-						if m.rt.Family == posa.Bor && p.borProp(m) < 0 {
+						switch {
+						case m.rt.Family == posa.Bor && p.borProp(m) < 0:
 							nx.class = []string{"reject"} // proposer unknown to the model: nothing claimed
-						} else {
+						case p.taint:
+							nx.class = []string{"model-valid-rejected-after-flagged-ancestor", "model-valid-rejected-after-flagged-ancestor:" + errClass(res.Err)}
+						default:
 							nx.class = []string{"model-valid-rejected", "model-valid-rejected:" + errClass(res.Err)}
+							r.Note("model_valid_rejected_sample_"+tag, map[string]any{"state": labels(s), "event": evn, "err": fmt.Sprint(res.Err)})
 						}
 					} else {
 						nx.class = []string{"reject", "reject:" + bad[0]}
@@ -641,6 +667,7 @@ func explore(r *ev.Run, env *hsenv.Env, m *model, sims chan *hsenv.Sim, base pol
 					nx.probs = append(nx.probs, problem{"stored/" + b, fmt.Sprintf("header %s (height %d, sealed by k%d, difficulty %d, list %v, validator set in force %v) was stored: %s",
 						evn, node.height, sp.signer, sp.diff, sp.list, m.inEffect(p), b)})
 				}
+				node.taint = p.taint || len(bad) > 0
 				nx.nodes = append(append(make([]*mnode, 0, len(s.nodes)+1), s.nodes...), node)
 				nx.class = []string{"accept"}
 				if len(bad) > 0 {
@@ -653,18 +680,23 @@ func explore(r *ev.Run, env *hsenv.Env, m *model, sims chan *hsenv.Sim, base pol
 				if !sameSet(set, listCodes["A"]) || len(set) != 3 {
 					nx.class = append(nx.class, "accept-under-new-set")
 				}
-				if v.Head == hx {
-					if s.head == p.hash {
-						nx.class = append(nx.class, "extend-head")
-					} else {
-						nx.class = append(nx.class, "reorg")
-					}
-				} else if hr, ok := v.Stored[v.Head]; ok {
-					if me := v.Stored[hx]; me.TD != nil && hr.TD != nil && me.TD.Cmp(hr.TD) == 0 {
-						nx.class = append(nx.class, "tie-head-kept")
-					} else {
-						nx.class = append(nx.class, "side-lighter-kept")
-					}
+				me := v.Stored[hx]
+				oldHead, okOld := v.Stored[s.head]
+				tie := okOld && me.TD != nil && oldHead.TD != nil && me.TD.Cmp(oldHead.TD) == 0
+				if tie {
+					nx.class = append(nx.class, "tie-observed")
+				}
+				switch {
+				case v.Head == hx && s.head == p.hash:
+					nx.class = append(nx.class, "extend-head")
+				case v.Head == hx && tie:
+					nx.class = append(nx.class, "tie-head-switched")
+				case v.Head == hx:
+					nx.class = append(nx.class, "reorg")
+				case tie:
+					nx.class = append(nx.class, "tie-head-kept")
+				default:
+					nx.class = append(nx.class, "side-lighter-kept")
 				}
 			}
 			return nx, true
@@ -685,6 +717,14 @@ func explore(r *ev.Run, env *hsenv.Env, m *model, sims chan *hsenv.Sim, base pol
 		},
 	}
 	return mc.BFS(cfg)
+}
+
+func labels(s state) []string {
+	var out []string
+	for _, n := range s.nodes {
+		out = append(out, n.label)
+	}
+	return out
 }
 
 func btoi(b bool) int {
